@@ -425,6 +425,11 @@ def run(chk):
         "quick: ~40 limits per program (0, 1, around the library baseline, around the program's final size, around its least passing limit, 12 sampled in between)"
     chk.sample({"sweep": "ints", "src": PROGRAMS["ints"]})
 
+    # (E) generator pipelines with element-dependent transient allocations inside callbacks (coordinator's library probe):
+    #     under every size limit the run ends in AllocationLimitReached or in exactly the unlimited result — a passing run's
+    #     values never depend on L, and an allocation violation raised inside a predicate / mapper is never swallowed
+    from . import libprobe
+    libprobe.pipeline_transparency(chk, rng, 36 if quick else 600, prefix="c09", only_size=True)
     return chk.finish(rule="(A) random event traces of allocate / managed values / drops / pre-flights on a runtime with and without a limit; "
                            "(B) (program, limit) pairs; non-trivial = traces with at least one failed allocation or pre-flight, and (program, limit) "
                            "pairs whose run ends in a violation")
